@@ -1,6 +1,6 @@
 CONSTANTS Carriers = {"xds"} Vals = {"a", "b", "u"} Labels = {} Times = {} Bads = {}
-  WssWords = {} MaxRecv = 7 UnknownOnce = TRUE XdsGuard = TRUE Calls = {"a", "b"}
-  Handlers = {"h1", "h2"} InitMasks = {{"NETWORK", "NETWORK_ID", "PROG_ID", "LOCAL_TIME", "ASPECT", "TTX_PAGE", "CAPTION"}, {"NETWORK_ID", "TTX_PAGE"}} RegMasks = {{"CAPTION"}, {"NETWORK"}} Apis = {"add"} MaxReg = 1
+  WssWords = {} MaxRecv = 8 UnknownOnce = TRUE XdsGuard = TRUE Calls = {"a", "b"}
+  Handlers = {"h1", "h2"} InitMasks = {{"NETWORK", "NETWORK_ID", "PROG_ID", "LOCAL_TIME", "ASPECT", "TTX_PAGE", "CAPTION"}, {"NETWORK_ID", "TTX_PAGE"}} RegMasks = {{"CAPTION"}, {"NETWORK"}} Apis = {"reg", "add"} MaxReg = 1
 SPECIFICATION GSpec
 VIEW gview
 INVARIANTS Dump TypeOK Faithful XdsSettles
